@@ -27,6 +27,7 @@ MultiKinds   == {"mget", "del", "mset"}
 ReadKinds    == {"get", "mget"}
 
 NilTok == [c |-> "", i |-> 0, j |-> 0, s |-> "", n |-> "", v |-> "nil"]
+EmptyTok == [c |-> "", i |-> 0, j |-> 0, s |-> "", n |-> "", v |-> "empty"]     \* the key holds the empty string
 Rep(t, toks, num, txt) == [t |-> t, toks |-> toks, num |-> num, txt |-> txt]
 IsErr(rep) == rep.t \in {"err", "perr"}
 IsTimeoutErr(rep) == rep.t = "perr" /\ rep.txt = "proxy request timeout"
@@ -79,7 +80,7 @@ FitsLocal(k, rep) ==
 
 TypeFits(k, rep) ==
   CASE k \in LocalKinds -> FitsLocal(k, rep)
-    [] k = "get"  -> rep.t \in {"val", "nil", "err", "perr"}
+    [] k = "get"  -> rep.t \in {"val", "nil", "empty", "err", "perr"}
     [] k = "set"  -> rep.t \in {"ok", "err", "perr"}
     [] k = "mget" -> rep.t \in {"arr", "err", "perr"}
     [] k = "del"  -> rep.t \in {"int", "err", "perr"}
@@ -91,6 +92,7 @@ SingleRep(c, i, r, a) ==
   CASE a.kind = "err" -> Rep("err", <<[c |-> c, i |-> i, j |-> 0, s |-> s, n |-> "", v |-> "err"]>>, 0, a.cls)
     [] r.k = "set"    -> Rep("ok", <<>>, 0, "")
     [] a.kind = "nil" -> Rep("nil", <<>>, 0, "")
+    [] a.kind = "empty" -> Rep("empty", <<>>, 0, "")
     [] OTHER          -> Rep("val", <<[c |-> c, i |-> i, j |-> 0, s |-> s, n |-> a.n, v |-> "val"]>>, 0, "")
 
 RECURSIVE SumNum(_, _)
@@ -107,6 +109,7 @@ MergeRep(m, c, i, r) ==
                     v == IF loc \in DOMAIN a.vals THEN a.vals[loc] ELSE "missing"
                 IN IF v = "val" THEN [c |-> c, i |-> i, j |-> KeyJ(r, j - 1), s |-> s, n |-> a.n, v |-> "val"]
                    ELSE IF v = "nil" THEN NilTok
+                   ELSE IF v = "empty" THEN EmptyTok
                    ELSE [c |-> c, i |-> i, j |-> j - 1, s |-> s, n |-> a.n, v |-> v]],
              Len(r.slots), "")
     [] r.k = "del"  -> Rep("int", <<>>, SumNum(m, Frags(m, c, i)), "")
